@@ -13,7 +13,7 @@ class Round:
     __slots__ = ('n', 'structure', 'tournament', 'street_min', 'cap', 'live', 'stack', 'bet',
                  'pot_before', 'opener', 'bring_in', 'bring_in_pending', 'completion_pending',
                  'owes', 'largest_raise', 'raises', 'level_at_last_action',
-                 'short_allins_since_full', 'acted_since_full', 'over', 'street')
+                 'short_allins_since_full', 'acted_since_full', 'over', 'street', 'card_based')
 
     def __init__(self, n, structure, tournament, street_min, cap, live, stack, bet,
                  pot_before, opener, bring_in=0, street=0):
@@ -27,6 +27,7 @@ class Round:
         self.bet = list(bet)
         self.pot_before = pot_before      # chips already collected (all pots incl. antes)
         self.opener = opener
+        self.card_based = False
         self.bring_in = bring_in          # > 0 only on the first stud street
         self.street = street
         self.bring_in_pending = False
@@ -311,11 +312,16 @@ class BettingMonitor:
         if opening == 'POSITION':
             opener = position_opener(n, st.blinds_or_straddles, si == 0)
         else:
-            opener = None   # card-based: resolved lazily from the implementation (C13 checks it)
+            # card-based: from the cards showing (players out of the hand show nothing); when a card is unknown the
+            # designee is read lazily from the implementation (C13 decides those)
+            from .opener import card_opener
+            ups = [[repr(c) for c in st.get_up_cards(i)] if st.statuses[i] else [] for i in range(n)]
+            opener = card_opener(opening, ups)
         pot_before = sum(st.starting_stacks) - sum(st.stacks) - sum(st.bets)
         r = Round(n, sp.structure, st.mode.value == 'Tournament', sp.street_mins[si], sp.caps[si],
                   st.statuses, st.stacks, st.bets, pot_before, opener,
                   sp.bring_in if si == 0 else 0, street=si)
+        r.card_based = opening != 'POSITION'
         return r
 
     def init(self, st, ctx):
@@ -339,6 +345,10 @@ class BettingMonitor:
                 else:
                     r.opener = 0
                     # a round the implementation ran through: only 'over or not' matters, independent of opener
+            elif r.card_based:
+                ctx.counters['card_openers_from_reference'] += 1
+                if not r.stack[r.opener] and sum(1 for i in range(r.n) if r.live[i] and r.stack[i]) >= 2:
+                    ctx.counters['card_designee_all_in_with_betting_left'] += 1
             r.start()
             if k < len(starts) - 1 and not r.over:
                 self._viol(ctx, 'round-skipped', f'street {r.street}: reference says seat {r.actor} must act '
